@@ -13,8 +13,9 @@ def gen_docs(rng, n=None):
              'a': rng.choice([[1, 2], [2], [], [3, 1, 2], ['p', 'q'], [1, 1]]),
              'ad': rng.choice([[{'x': 1}, {'x': 2, 'y': 'p'}], [{'x': 3}], [], [{'y': 'q'}]]),
              'd': {'x': rng.choice([1, 2, 3]), 'y': rng.choice(['p', 'q'])},
-             'k': rng.choice([1, 2, 3, 'a', None, [1, 2]])}
-        for f in ('g', 'n', 's', 'a', 'ad', 'd', 'k'):
+             'k': rng.choice([1, 2, 3, 'a', None, [1, 2]]),
+             'h': {'i': {'j': rng.choice([1, 2]), 'k': rng.choice(['a', 'b'])}, 'm': 0}}
+        for f in ('g', 'n', 's', 'a', 'ad', 'd', 'k', 'h'):
             if rng.random() < 0.12:
                 del d[f]
         if rng.random() < 0.08:
@@ -82,7 +83,7 @@ def stage(rng, depth=1):
             p['_id'] = rng.choice([0, 1, False, True])
         return {k: p}
     if k in ('$addFields', '$set'):
-        f = {rng.choice(['x', 'y', 'n', 'd.z', 'e.f']): genexpr_pipe(rng)}
+        f = {rng.choice(['x', 'y', 'n', 'd.z', 'e.f', 'h.i.j', 'h.i.z']): genexpr_pipe(rng)}
         if rng.random() < 0.35:
             f[rng.choice(['w', 's', 'x2'])] = genexpr_pipe(rng)
         return {k: f}
